@@ -86,10 +86,20 @@ func genMtOps(r *core.Rand, n, nkeys int, monotone bool) []mtEnt {
 }
 
 func applyMt(mt *memtable.MemTable, e mtEnt) {
+	// the caller's buffers are overwritten as soon as the call has returned: the table must hold its own copy
+	k, v := append([]byte{}, e.K...), append([]byte{}, e.V...)
 	if e.Del {
-		mt.Delete(e.K, e.Seq)
+		mt.Delete(k, e.Seq)
 	} else {
-		mt.Put(e.K, e.V, e.Seq)
+		mt.Put(k, v, e.Seq)
+	}
+	scribbleEE(k)
+	scribbleEE(v)
+}
+
+func scribbleEE(b []byte) {
+	for i := range b {
+		b[i] = 0xEE
 	}
 }
 
@@ -525,11 +535,14 @@ func runC18(c *core.Ctx, res *core.Result) {
 		if stop.Load() {
 			break
 		}
+		k, v := append([]byte{}, e.K...), append([]byte{}, e.V...)
 		if e.Del {
-			pool.Delete(e.K, e.Seq)
+			pool.Delete(k, e.Seq)
 		} else {
-			pool.Put(e.K, e.V, e.Seq)
+			pool.Put(k, v, e.Seq)
 		}
+		scribbleEE(k)
+		scribbleEE(v)
 		published.Store(int64(i + 1))
 		if r.Chance(3) && switches < 40 {
 			pool.SwitchToNewMemTable()
